@@ -415,7 +415,7 @@ class Ctx:
             print("KNOWN-FINDING: property=%s %s" % (self.id, k["what"]))
         for sig, msg, path in self.violations:
             print("VIOLATION property=%s replay=%s" % (self.id, path))
-            print("  " + sig + " :: " + msg[:400])
+            print("  " + sig + " :: " + msg[:1500])
         shutil.rmtree(self.work, ignore_errors=True)
         print("%s %s tier=%s seed=%d states=%d transitions=%d impl_cases=%d wall=%.0fs" % (
             self.id, "VIOLATED" if self.violations else "ok", self.tier, self.seed, self.states,
